@@ -1,4 +1,5 @@
 import Driver.Trace
+import Driver.DynAtt
 import Crusta.Model.Dyn
 
 /-! Driver side of the dynamic-solver traces: the `Dyn` model is run on the same update / query
@@ -86,6 +87,8 @@ def runDynTrace (lines : List String) : List String := Id.run do
     match solverKindOf (kind.drop 6).toString with
     | some sk => return runDummyTrace sk lines
     | none => return []
+  if let some asem := attSemOfKind kind then
+    return runDynAttTrace asem (factorOf (kvGetD (toks inl) "factor" "2")) lines
   let some sem := dsemOfKind kind | return []
   if kvGetD (toks inl) "trace" "0" == "0" then return []
   let mut d := DState.init sem
